@@ -63,6 +63,8 @@ func patternClasses(p byte) (ocspCls, crlCls int) {
 		return 3, 2
 	case 'N':
 		return 3, 0 // like F, but the responder answers 503 with a body (an answer, not a transport error): the body must be closed
+	case 'T':
+		return 1, 0 // two responders, [Revoked, Good]: the first one listed decides, whichever answers first
 	case 'D':
 		return 3, 1 // like L, but the certificate is listed by the delta CRL of a bundle whose base has three other entries
 	}
@@ -141,6 +143,14 @@ func (c *schedCache) Set(ctx context.Context, url string, b *corecrl.Bundle) err
 	return nil
 }
 
+// c17OCSPClasses lists the classes of a certificate's responders, in certificate order.
+func c17OCSPClasses(p byte, oc int) []int {
+	if p == 'T' {
+		return []int{1, 0}
+	}
+	return []int{oc}
+}
+
 func isPanic(d any) bool {
 	cd, ok := d.(ctlDecision)
 	return ok && cd.kind == "panic"
@@ -182,6 +192,9 @@ func (s *c17Scenario) world() *revWorld {
 			if s.entry == "checkstatus" {
 				c[i] = 0
 			}
+			if s.pattern[i] == 'T' {
+				o[i] = 2 // two responders that disagree: the first one listed says Revoked, the second one Good
+			}
 		}
 		s.w = newRevWorld(n, o, c, purposeCS)
 	})
@@ -211,6 +224,10 @@ func c17Scenarios(tier mc.Tier) []mc.Scenario {
 		}
 		add(&c17Scenario{name: "validate-" + p, pattern: p, entry: "validate", callers: 1, inject: inj, fetcher: "http"})
 	}
+	// a certificate with two responders that disagree: certificate order decides, not arrival order; nothing outlives the call
+	add(&c17Scenario{name: "validate-T", pattern: "T", entry: "validate", callers: 1, inject: 2, fetcher: "http"})
+	add(&c17Scenario{name: "validate-TG", pattern: "TG", entry: "validate", callers: 1, inject: 1, fetcher: "http"})
+	add(&c17Scenario{name: "checkstatus-T", pattern: "T", entry: "checkstatus", callers: 1, inject: 2, fetcher: "http"})
 	for _, p := range []string{"G", "GG", "GR", "GGG", "GGGG"} {
 		inj := 1
 		if len(p) == 2 {
@@ -277,6 +294,12 @@ func (s *c17Scenario) body(c *mc.Ctx) {
 		if src.kind == "ocsp" {
 			if oc == 4 {
 				return w.serveOCSP(src, ocspByName("revoked-invalidity+1/issuer"))
+			}
+			if s.pattern[src.cert] == 'T' {
+				if src.idx == 0 {
+					return w.serveOCSP(src, ocspByName("revoked/issuer"))
+				}
+				return w.serveOCSP(src, ocspByName("good/issuer"))
 			}
 			if s.pattern[src.cert] == 'N' {
 				a := w.serveOCSP(src, ocspByName("good/issuer"))
@@ -521,7 +544,7 @@ func (s *c17Scenario) body(c *mc.Ctx) {
 			for i := 0; i < n-1; i++ {
 				_, stSet := stOf(k)
 				oc, cc := patternFor(s.pattern[i], stSet)
-				want := refCert(i, []int{oc}, []int{cc}[:w.c[i]], entryName(s.entry))
+				want := refCert(i, c17OCSPClasses(s.pattern[i], oc), []int{cc}[:w.c[i]], entryName(s.entry))
 				if r.res[i] == nil {
 					c.Fail(sigBase+" nil result after cancellation", "cert %d", i)
 				} else if (r.res[i].Result == result.ResultOK || r.res[i].Result == result.ResultNonRevokable) && want.res != result.ResultOK {
@@ -535,7 +558,7 @@ func (s *c17Scenario) body(c *mc.Ctx) {
 			for i := 0; i < n-1; i++ {
 				_, stSet := stOf(k)
 				oc, cc := patternFor(s.pattern[i], stSet)
-				want := refCert(i, []int{oc}, []int{cc}[:w.c[i]], entryName(s.entry))
+				want := refCert(i, c17OCSPClasses(s.pattern[i], oc), []int{cc}[:w.c[i]], entryName(s.entry))
 				if why := compareCert(r.res[i], want, true); why != "" {
 					c.Fail(sigBase+" schedule-dependent-or-wrong-result: "+stripDigits(why), "caller %d cert %d under schedule %v: %s", k, i, released, why)
 				}
